@@ -406,7 +406,7 @@ func runC15(c *fw.Ctx, idx int) fw.Result {
 			s := r.Range(1, L)
 			ws = append(ws, [2]int{s, r.Range(s, L)}, [2]int{r.Range(1, L), -1}, [2]int{-1, r.Range(1, L)})
 		}
-		for _, w := range ws {
+		for wi, w := range ws {
 			agg := r.Chance(0.3)
 			got, err := ac.runVariants(w[0], w[1], agg, 0, appendSNP, pickThreads(r))
 			res.Evals++
@@ -416,6 +416,9 @@ func runC15(c *fw.Ctx, idx int) fw.Result {
 			if err != nil {
 				res.Fail(class+":error", err.Error(), files, argv)
 				continue
+			}
+			if idx%30 == 4 && wi < 3 {
+				ac.binVariants(c, &res, idx+wi, w[0], w[1], agg, 0, appendSNP, 2, got)
 			}
 			base := full
 			if agg {
